@@ -12,6 +12,7 @@ import (
 	"net/http"
 	"path/filepath"
 	"sort"
+	"strings"
 
 	"github.com/jdillenkofer/pithos/internal/ioutils"
 	"github.com/jdillenkofer/pithos/internal/storage"
@@ -145,6 +146,7 @@ type c37Script struct {
 	nrich    int
 	big      []int // sizes of additional large objects (thorough)
 	directed int   // >0: a directed source instead of a generated history
+	shape    string // nonempty scenario: key shape of the pre-existing destination objects: nested | top | mixed ("" = drawn)
 }
 
 func c37Put(ctx context.Context, st storage.Storage, b, k string, body []byte, ct *string, o *storage.PutObjectOptions) {
@@ -222,6 +224,9 @@ func runC37(args []string) {
 		c37Script{stack: "sql", scenario: "unrelated", directed: 3},
 		c37Script{stack: "fs", scenario: "nonempty", directed: 1},
 		c37Script{stack: "fs", scenario: "empty", directed: 4},
+		c37Script{stack: "sql", scenario: "nonempty", directed: 3, shape: "nested"},
+		c37Script{stack: "fs", scenario: "nonempty", directed: 3, shape: "mixed"},
+		c37Script{stack: "sql", scenario: "nonempty", directed: 3, shape: "top"},
 	)
 	if f.Tier == "thorough" {
 		const MiB = 1 << 20
@@ -316,14 +321,41 @@ func runC37(args []string) {
 				}
 				b := verifx.Pick(r, cands).Name
 				c37EnsureBucket(ctx, dst.Storage, b.String())
-				key := "already-there"
-				if objs, err := storage.ListAllObjectsOfBucket(ctx, src.Storage, b); err == nil && len(objs) > 0 && r.Chance(1, 2) {
-					key = verifx.Pick(r, objs).Key.String()
+				// key shapes of what is already there: only keys below folder-like prefixes, only
+				// top-level keys, or both; one of them collides with a source key half of the time
+				shape := sc.shape
+				if shape == "" {
+					shape = verifx.Pick(r, []string{"nested", "nested", "top", "mixed"})
 				}
-				ct, o := c37RichOpts(r)
-				c37Put(ctx, dst.Storage, b.String(), key, []byte("destination content that must survive"), ct, o)
-				if r.Chance(1, 2) {
-					c37Put(ctx, dst.Storage, b.String(), "second", []byte("2"), nil, nil)
+				var keys []string
+				if shape == "nested" || shape == "mixed" {
+					keys = append(keys, verifx.Pick(r, []string{"photos/2024/a.jpg", "dir/already-there", "a/b/c/d"}))
+					if r.Chance(1, 2) {
+						keys = append(keys, "photos/2023/b.jpg")
+					}
+				}
+				if shape == "top" || shape == "mixed" {
+					keys = append(keys, "already-there")
+					if r.Chance(1, 2) {
+						keys = append(keys, "second")
+					}
+				}
+				if objs, err := storage.ListAllObjectsOfBucket(ctx, src.Storage, b); err == nil && r.Chance(1, 2) {
+					// a colliding key of the same shape, if the source has one
+					var same []string
+					for _, so := range objs {
+						if strings.Contains(so.Key.String(), "/") == (shape != "top") {
+							same = append(same, so.Key.String())
+						}
+					}
+					if len(same) > 0 {
+						keys[0] = verifx.Pick(r, same)
+					}
+				}
+				out.Line("note destination-key-shape %s", shape)
+				for i, key := range keys {
+					ct, o := c37RichOpts(r)
+					c37Put(ctx, dst.Storage, b.String(), key, []byte(fmt.Sprintf("destination content %d that must survive", i)), ct, o)
 				}
 			}
 			c37Dump(ctx, out, "src", src.Storage)
